@@ -7,8 +7,17 @@ from .mir import render, strip_generics, Site
 K = "libp2p_kad"
 
 
+def eff_expr(b, s):
+    """expression of a site; for a call site that stands for the single effect of a private helper (see with_helpers) the
+    helper's inner effect expression with the actual arguments substituted"""
+    rel = getattr(b, "_reloc", None)
+    if rel and s.key() in rel:
+        return rel[s.key()]
+    return b.site_expr(s)
+
+
 def R(b, s):
-    return render(b.site_expr(s))
+    return render(eff_expr(b, s))
 
 
 def where(b):
@@ -482,6 +491,87 @@ def arg_of_type(b, ty_pat):
     if len(hits) != 1:
         raise mir.RuleError("parameter of %s with type /%s/: %d candidates" % (b.npath, ty_pat, len(hits)))
     return b.names.get(hits[0], "#%d" % hits[0])
+
+
+# ------------------------------------------------------------------------------------------------ helpers, one level
+def callers_roots(prog, crate, npath):
+    """root functions (closures count for their parent) that call the function `npath`"""
+    out = set()
+    for b in prog.bodies(crate):
+        for s in b.call_sites():
+            if strip_generics(b.call_name(s.term)) == npath:
+                out.add(root_fn(prog, b).npath)
+    return out
+
+
+def allowed_fn(prog, crate, root, allow, depth=1):
+    """who-may rules: `root` (a Body) is permitted if it is allow-listed (set of npaths or predicate), or if it is a non-`pub`
+    helper all of whose callers (crate-wide, closures counted for their parent) are permitted -- one level by default.  The
+    permission of an extracted / renamed private helper is inherited from its callers; its effects are counted at the call
+    site by with_helpers()."""
+    ok = allow(root) if callable(allow) else root.npath in allow
+    if ok:
+        return True
+    if depth <= 0 or root.vis == "pub":
+        return False
+    cs = callers_roots(prog, crate, root.npath)
+    by = prog.by_npath(crate) if hasattr(prog, "by_npath") else {}
+    return bool(cs) and all(c in by and c != root.npath and allowed_fn(prog, crate, by[c], allow, depth - 1) for c in cs)
+
+
+def allowed_kinds(prog, crate, root, table, depth=1):
+    """like allowed_fn, for "function F may perform effects of kinds K" tables (dict npath -> set of kinds): a non-`pub` helper
+    inherits the kinds that *all* its callers may perform."""
+    if root.npath in table:
+        return set(table[root.npath])
+    if depth <= 0 or root.vis == "pub":
+        return set()
+    cs = callers_roots(prog, crate, root.npath)
+    by = prog.by_npath(crate) if hasattr(prog, "by_npath") else {}
+    if not cs or any(c not in by or c == root.npath for c in cs):
+        return set()
+    ks = [allowed_kinds(prog, crate, by[c], table, depth - 1) for c in cs]
+    return set.intersection(*ks) if ks else set()
+
+
+def with_helpers(prog, b, finder, problems=None, skip=()):
+    """finder(body) -> list of effect sites (mir.Site, or tuples whose first element is a Site).  Returns finder(b) plus, for
+    every call in b of a crate-local helper that performs exactly one such effect on every path, the call site standing for that
+    effect (tuples keep their other components, rendered texts get the actual arguments substituted).  Helpers with a
+    path-dependent number of effects are appended to `problems` (rules fail closed on them)."""
+    out = list(finder(b))
+    by = prog.by_npath(b.crate) if hasattr(prog, "by_npath") else {}
+    for s in b.call_sites():
+        name = strip_generics(b.call_name(s.term))
+        h = by.get(name)
+        if h is None or h is b or h.summary() is not None or name in skip:
+            continue                # `skip`: functions that are analysed in their own right (not helpers of b)
+        inner = finder(h)
+        if not inner:
+            continue
+        sites = [x[0] if isinstance(x, tuple) else x for x in inner]
+        rng = lib.count_range(h, [0], h.return_blocks(), lib.bbs(sites))
+        if rng != (1, 1) or len(inner) != 1:
+            if problems is not None:
+                problems.append("%s called from %s performs %s such effect(s) per path at %d site(s)" % (h.short, b.short, rng, len(inner)))
+            continue
+        args = b.site_expr(s)[2]
+
+        def sub(x, args=args, bb=s.bb):
+            if x[0] == "arg":
+                return args[x[1] - 1] if 0 < x[1] <= len(args) else ("unknown", "?arg")
+            if x[0] == "call":
+                return ("call", x[1], x[2], bb)
+            return x
+        ie = emap(h.site_expr(sites[0]), sub)
+        if not hasattr(b, "_reloc"):
+            b._reloc = {}
+        b._reloc[s.key()] = ie
+        if isinstance(inner[0], tuple):
+            out.append((s,) + tuple(render(ie) if (isinstance(c, str) and i == len(inner[0]) - 1) else c for i, c in enumerate(inner[0]) if i > 0))
+        else:
+            out.append(s)
+    return out
 
 
 def const_val(e):
